@@ -444,28 +444,63 @@ func runC08R4(c *eng.Ctx, r *eng.RuleCtx) {
 		}
 		n++
 		construct := fmt.Sprintf("%s checksum#%d", f.Key, n)
-		call, isC := ast.Unparen(as.Rhs[0]).(*ast.CallExpr)
-		if !isC || eng.CalleeOf(info, call) != calc || len(call.Args) != 1 {
+		// the stored checksum: CalculateChecksum(string(json.Marshal(V))) directly, or a local every value of which is
+		// such a call (the empty string of an error path that returns is ignored)
+		var calls []*ast.CallExpr
+		okSrc := true
+		var collect func(e ast.Expr, depth int)
+		collect = func(e ast.Expr, depth int) {
+			e = ast.Unparen(e)
+			if cl, isC := e.(*ast.CallExpr); isC && eng.CalleeOf(info, cl) == calc && len(cl.Args) == 1 {
+				calls = append(calls, cl)
+				return
+			}
+			if v, isK := eng.ConstStr(info, e); isK && v == "" {
+				return
+			}
+			if lv, isV := eng.SelObj(info, e).(*types.Var); isV && !lv.IsField() && depth < 3 {
+				if _, isIdent := e.(*ast.Ident); isIdent {
+					es := eng.AssignedExprs(info, f.Decl.Body, lv)
+					if len(es) > 0 {
+						for _, x := range es {
+							collect(x, depth+1)
+						}
+						return
+					}
+				}
+			}
+			okSrc = false
+		}
+		collect(as.Rhs[0], 0)
+		if !okSrc || len(calls) == 0 {
 			r.Bad(construct, as.Pos(), "the checksum is not computed with CalculateChecksum")
 			return true
 		}
-		// string(b)
-		conv, isConv := ast.Unparen(call.Args[0]).(*ast.CallExpr)
-		if !isConv || len(conv.Args) != 1 {
-			r.Bad(construct, as.Pos(), "the checksum argument is not string(bytes)")
-			return true
-		}
-		bv, _ := eng.SelObj(info, conv.Args[0]).(*types.Var)
 		block := enclosingBlockOf(f.Decl.Body, as.Pos())
 		var marshalled types.Object
-		if bv != nil {
-			for _, e := range eng.AssignedExprs(info, block, bv) {
-				if cl, ok := ast.Unparen(e).(*ast.CallExpr); ok && eng.IsPkgFunc(eng.CalleeOf(info, cl), "encoding/json", "Marshal") && len(cl.Args) == 1 {
-					marshalled = eng.SelObj(info, cl.Args[0])
+		okMarshal := true
+		for _, call := range calls {
+			// string(b)
+			conv, isConv := ast.Unparen(call.Args[0]).(*ast.CallExpr)
+			if !isConv || len(conv.Args) != 1 {
+				r.Bad(construct, as.Pos(), "the checksum argument is not string(bytes)")
+				return true
+			}
+			bv, _ := eng.SelObj(info, conv.Args[0]).(*types.Var)
+			var m1 types.Object
+			if bv != nil {
+				for _, e := range eng.AssignedExprs(info, f.Decl.Body, bv) {
+					if cl, ok := ast.Unparen(e).(*ast.CallExpr); ok && eng.IsPkgFunc(eng.CalleeOf(info, cl), "encoding/json", "Marshal") && len(cl.Args) == 1 {
+						m1 = eng.SelObj(info, cl.Args[0])
+					}
 				}
 			}
+			if m1 == nil || (marshalled != nil && marshalled != m1) {
+				okMarshal = false
+			}
+			marshalled = m1
 		}
-		if marshalled == nil {
+		if !okMarshal || marshalled == nil {
 			r.Bad(construct, as.Pos(), "the checksummed bytes do not come from json.Marshal of a value in the same branch")
 			return true
 		}
